@@ -118,7 +118,7 @@ Lemma read_lenenc_seg d pre n rest pos :
   read_lenenc d pos = Ok (Some (n, (pos + lenenc_size n)%nat)).
 Proof. intros -> -> H. rewrite read_lenenc_ok by exact H. rewrite enc_lenenc_length. reflexivity. Qed.
 
-Lemma new_bitmap_seg d pre bits rest pos n :
-  d = pre ++ pack_bits bits ++ rest -> pos = length pre -> n = length bits ->
-  new_bitmap d pos n = Ok (expect_bitmap bits, (pos + (n + 7) / 8)%nat).
+Lemma new_bitmap_seg pad d pre bits rest pos n :
+  d = pre ++ pack_bits_pad pad bits ++ rest -> pos = length pre -> n = length bits ->
+  new_bitmap d pos n = Ok (expect_bitmap pad bits, (pos + (n + 7) / 8)%nat).
 Proof. intros -> -> ->. apply new_bitmap_ok. Qed.
